@@ -122,6 +122,16 @@ func scenariosFor(prop string, thorough bool) []*scenario {
 		}
 		add(&scenario{Name: "two-writers-one-fails-vs-reader", Stores: []txn.StoreSpec{store("a", 4, "node", 1, "a", 2, "b")},
 			Progs: []txn.Prog{W("W1", op("rmw", "a", 1, "+1")), W("W2", op("rmw", "a", 1, "+2")), R("R", op("get", "a", 1), op("count", "a", 0))}})
+	case "C12":
+		ns := []txn.StoreSpec{store("n", 4, "node")}
+		add(&scenario{Name: "two-creators-same-name", Stores: []txn.StoreSpec{store("a", 4, "node", 1, "x")}, NewStores: ns,
+			Progs: []txn.Prog{W("T1", op("add", "n", 1, "t1")), W("T2", op("add", "n", 2, "t2"))}})
+		add(&scenario{Name: "creator-vs-creator-rollback", Stores: []txn.StoreSpec{store("a", 4, "node", 1, "x")}, NewStores: ns,
+			Progs: []txn.Prog{W("T1", op("add", "n", 1, "t1")), WR("T2", op("add", "n", 2, "t2"))}})
+		if thorough {
+			add(&scenario{Name: "three-creators-same-name", Stores: []txn.StoreSpec{store("a", 4, "node", 1, "x")}, NewStores: ns,
+			Progs: []txn.Prog{W("T1", op("add", "n", 1, "t1")), W("T2", op("add", "n", 2, "t2")), W("T3", op("add", "n", 3, "t3"))}})
+		}
 	case "C15":
 		for _, mt := range []time.Duration{5 * time.Second, time.Minute} {
 			sfx := "-" + mt.String()
